@@ -11,8 +11,9 @@ Model of the streaming body-filter chain (C03, C04, C14, C15):
 Conventions.
 * Bytes are `Nat`s in a `List` (same as `Model/Html.lean`).  Strings that only ever meet bytes (element names of a
   path, css selectors, values) are their UTF-8 bytes.
-* The tokenizer is a PARAMETER: `Tokenize := Bytes → List Tok × Bytes` gives, for the buffer handed to
-  `html::Tokenizer::new`, the complete tokens in order (kind, raw bytes, lower-cased tag name) and the remainder
+* The tokenizer is a PARAMETER (`structure Tokenize`): `plain` for `html::Tokenizer::new` (append_child /
+  prepend_child), `stream` for `Tokenizer::new_fragment(data, last_context)` (the filter loop): the complete tokens in
+  order (kind, raw bytes, lower-cased tag name; for `stream` also the cut flag and the context) and the remainder
   (`raw()` of the final `ErrorToken` followed by `buffered()`).  `Model/FilterHtml.lean` instantiates it with the
   tokenizer model of W5; the theorems are stated for every tokenizer satisfying the laws they name.
 * `scraper` is a PARAMETER: `evaluate data selector : Bool`.
@@ -88,8 +89,25 @@ structure Tok where
   name : Bytes := []
   deriving DecidableEq, Repr, Inhabited
 
-/-- complete tokens of a buffer, and `raw() ++ buffered()` at the final `ErrorToken` -/
-abbrev Tokenize := Bytes → List Tok × Bytes
+/-- a token of the stream tokenizer of `HtmlFilterBodyAction::filter`, with what the filter reads around `next()` -/
+structure TokX where
+  tok : Tok
+  /-- `tokenizer.err().is_some()` after the `next()` that produced the token: the end of the data was reached -/
+  cut : Bool
+  /-- `tokenizer.raw_tag()` before that `next()`: the raw-text element in whose content the token starts (`[]` = none) -/
+  ctx : Bytes
+  deriving DecidableEq, Repr, Inhabited
+
+/-- The tokenizer as the filters use it (a parameter of the model).
+`plain b` = `Tokenizer::new(b)` run to the `ErrorToken`: complete tokens in order and `raw() ++ buffered()` at the
+`ErrorToken` (`append_child`, `prepend_child`).
+`stream c b` = `Tokenizer::new_fragment(b, c)` run to the `ErrorToken`: tokens with `cut` and `ctx`, the remainder, and
+`raw_tag()` before the `next()` that returned the `ErrorToken` (`HtmlFilterBodyAction::filter` since fe7eac6). -/
+structure Tokenize where
+  plain : Bytes → List Tok × Bytes
+  stream : Bytes → Bytes → List TokX × Bytes × Bytes
+
+instance : CoeFun Tokenize (fun _ => Bytes → List Tok × Bytes) := ⟨Tokenize.plain⟩
 
 def rawsOf (ts : List Tok) : Bytes := ts.flatMap (·.raw)
 
@@ -256,6 +274,8 @@ structure HtmlSt where
   stack : List Link := []
   /-- `last_buffer` -/
   last : Bytes := []
+  /-- `last_context`: the raw-text element in whose content `last_buffer` starts (`[]` outside one) -/
+  ctx : Bytes := []
   deriving Repr, DecidableEq, Inhabited
 
 /-- `HtmlFilterBodyAction::new` -/
@@ -327,15 +347,35 @@ def utf8Split (data : Bytes) : Option (Bytes × Bytes) :=
   | .incomplete n => some (data.take n, data.drop n)
   | .invalid => none
 
-/-- `HtmlFilterBodyAction::filter`; `none` = `Err` (state unchanged) -/
+/-- `is_cut`: the token was ended by the end of the data and not by its own syntax; plain text (and `plaintext`
+content) is emitted as it is -/
+def isCut (x : TokX) : Bool :=
+  x.cut && (x.tok.kind != .text || (x.ctx != [] && x.ctx != htmlPlaintext))
+
+/-- the tokens before the first cut one, and the cut one with whatever follows it -/
+def cutSplit (xs : List TokX) : List TokX × List TokX := xs.span fun x => !isCut x
+
+def toksOf (xs : List TokX) : List Tok := xs.map (·.tok)
+
+/-- `last_context` after the call: the context of the first held token -/
+def heldCtx (pre post : List TokX) (held ctxE : Bytes) : Bytes :=
+  match post with
+  | x :: _ => x.ctx
+  | [] => if held.isEmpty then ctxE else (pre.getLast?.map (·.ctx)).getD ctxE
+
+/-- `HtmlFilterBodyAction::filter` (since fe7eac6); `none` = `Err` (state unchanged).
+The tokenizer is built with `new_fragment(data, last_context)`.  The loop stops at the `ErrorToken` or at the first
+token for which `is_cut` holds; that token and what follows are kept (`raw() ++ buffered()`).  The "text containing `<`
+is held" rule only applies when the loop stopped at the `ErrorToken`. -/
 def filterHtml (s : HtmlSt) (input : Bytes) : Option (HtmlSt × Bytes) :=
   match utf8Split (s.last ++ input) with
   | none => none
   | some (data, pending) =>
-    let (ts, rest) := tk data
-    let (todo, held) := splitHeld ts
+    let (xs, rest, ctxE) := tk.stream s.ctx data
+    let (pre, post) := cutSplit xs
+    let (todo, held) := if post.isEmpty then splitHeld (toksOf pre) else (toksOf pre, [])
     let (s', out) := todo.foldl (stepTok tk evaluate) (s, [])
-    some ({ s' with last := held ++ rest ++ pending }, out)
+    some ({ s' with last := held ++ rawsOf (toksOf post) ++ rest ++ pending, ctx := heldCtx pre post held ctxE }, out)
 
 /-- `HtmlFilterBodyAction::end` (reads only): outer buffers first, then `last_buffer` -/
 def endHtml (s : HtmlSt) : Bytes :=
